@@ -281,6 +281,34 @@ fn case_child_output(t: &mut Tape, st: &mut Stats) -> Verdict {
         Some(e) => e,
         None => return Verdict::Discard("no echo binary"),
     };
+    if t.chance(1, 8) {
+        // a script that (transitively) includes itself, the files named in any spelling: the tool reports the
+        // library's error like any other - it is not killed
+        let len = 1 + t.below(3);
+        let style = t.below(6);
+        let dir = format!("{}/c20cyc-{:?}", scratch_root(), std::thread::current().id()).replace(['(', ')'], "");
+        let _ = std::fs::remove_dir_all(&dir);
+        let _ = std::fs::create_dir_all(format!("{}/sub", dir));
+        for i in 0..len {
+            let target = crate::props::c07::cycle_target(&dir, (i + 1) % len, style);
+            std::fs::write(format!("{}/f{}.ds", dir, i), format!("echo file {}\n!include_files {}\necho after\n", i, target)).expect("write");
+        }
+        let path = format!("{}/f0.ds", dir);
+        let me = std::env::current_exe().expect("current exe");
+        let lib = Command::new(&me).args(["librun", &path]).stdin(std::process::Stdio::null()).output().expect("spawn librun");
+        let form = t.below(2);
+        let cli = if form == 0 { run_duck(&[&path]) } else { run_duck(&[["-l", "--lint"][t.below(2)], &path]) };
+        let _ = std::fs::remove_dir_all(&dir);
+        st.class("script-that-includes-itself");
+        let d = json!({"cycle_length": len, "path_style": style, "form": if form == 0 { "run" } else { "lint" }, "library_status": lib.status.code(), "tool_status": cli.status, "tool_stdout": cli.stdout.chars().take(300).collect::<String>()});
+        if cli.status.is_none() {
+            return fail("C20/include-cycle/cli-killed-by-signal", d);
+        }
+        if lib.status.code() == Some(1) && (cli.status == Some(0) || !cli.stdout.contains("Error")) {
+            return fail("C20/include-cycle/library-failed-cli-did-not-report", d);
+        }
+        return Verdict::Pass(Some(fp(&(len, style, form))));
+    }
     let mut lines = vec![];
     let mut children = 0;
     let n = 2 + t.below(6);
@@ -488,7 +516,7 @@ pub fn property() -> Property {
                     Tier::Thorough => Plan::Random { cases: 30_000, max_len: 60 },
                 },
                 case: case_child_output,
-                min_classes: &[("child-output-succeeding-script", 500)],
+                min_classes: &[("child-output-succeeding-script", 500), ("script-that-includes-itself", 100)],
             },
             Section {
                 name: "lint",
